@@ -159,7 +159,7 @@ def run_property(prop):
     # tree on which the contracts were proved; a difference in an observable the statements fix is reported with the scenario
     try:
         import gridgen
-        if prop in gridgen.FOCI:
+        if prop in gridgen.FOCI or prop in gridgen.POOL_OF:
             ng, gfails = gridgen.check(prop)
             n += ng
             os.makedirs(os.path.join(VERIF, "out", "replay"), exist_ok=True)
